@@ -104,6 +104,7 @@ type Enc struct {
 	declared  map[string]bool
 	items     []item
 	obls      []*Obl
+	mute      int // >0: obligations are neither recorded nor assumed (see oblige)
 	n         int
 	heapSort  map[string]string
 	heapType  map[string]types.Type
@@ -195,6 +196,11 @@ func (e *Enc) define(prefix, sort, term string) string {
 }
 
 func (e *Enc) oblige(kind, name string, props []string, guard, cond string, pos token.Position, note string) *Obl {
+	if e.mute > 0 {
+		// re-execution of code whose obligations were already generated for arbitrary arguments (sort.Search's
+		// characterisation of its result): neither a new obligation nor an assumption
+		return &Obl{Name: name, Kind: kind}
+	}
 	full := name
 	if e.view != "" {
 		full += "@" + e.view
